@@ -164,6 +164,7 @@ func specSameQuota(ue *chf_context.ChfUe, old map[int32]int64) bool {
 //@   ensures [C12] result0 != nil ==> result0.InvocationSequenceNumber == chargingData.InvocationSequenceNumber && result0.InvocationTimeStamp != nil
 //@   ensures [C11] chargingData.NfConsumerIdentification == nil ==> result2 != nil && result2.Status == 400
 //@   assert "chargingSessionId = ueId": [C09 C10] verif_held(&ue.CULock)
+//@   assert "seq := self.LocalRecordSequenceNumber": [C09] verif_held(&self.Mutex)
 //@   assert "ue.Records = append(": [C02 C10] ue.Cdr[chargingSessionId] == cdr && cdr != nil && cdr.ChargingFunctionRecord != nil
 //@   assert "return &responseBody, locationURI, nil": [C10 C12] locationURI == self.Url+"/nchf-convergedcharging/v3/chargingdata/"+chargingSessionId && ue.Cdr[chargingSessionId] == cdr
 
